@@ -183,3 +183,30 @@ __CPROVER_ensures(Chunk_m_type(chunk) != CT_IGNORED_V ==> (ST_SIZE == 0 || (UT_a
 __CPROVER_ensures(ST_SIZE < ST_OLD ==> (ST_SIZE == 0 || UT_at(ST_STR, ST_SIZE - 1) != '\\'))
 ;
 #undef chunk
+
+/* ---- parse_cr_string (raw string literal R"tag( ... )tag"): C06 progress / restore / termination and memory safety for every input, including one that ends inside the literal ---- */
+_Bool tag_compare_env_contract(struct deque_int *d, size_t a_idx, size_t b_idx, size_t len)
+/* the precondition of the proved contract of tag_compare (contracts/shared/crstring.spec.c): both delimiters lie inside the data */
+__CPROVER_requires(len <= DI_size(d) && a_idx <= DI_size(d) - len && b_idx <= DI_size(d) - len)
+__CPROVER_assigns()
+__CPROVER_ensures(1)
+;
+void parse_suffix_contract(struct TokenContext *ctx, struct Chunk *pc, _Bool forstring)
+__CPROVER_requires(TC_idx(ctx) <= TC_size(ctx))
+__CPROVER_assigns(TC_FRAME(ctx))
+__CPROVER_ensures(TC_idx(ctx) >= OLD_IDX && TC_idx(ctx) <= TC_size(ctx))
+;
+extern const unsigned CT_STRING_V, CT_STRING_MULTI_V;
+_Bool parse_cr_string_contract(struct TokenContext *ctx, struct Chunk *pc, size_t q_idx)
+__CPROVER_requires(TC_FRESH(ctx) && OPT_RANGE_input_tab_size && CPD(frag_cols) < (1U << 16))
+/* call site (parse_next): ctx.peek(q_idx) == '"' for a prefix of at most 3 characters (R, LR, uR, UR, u8R) */
+__CPROVER_requires(q_idx <= 3 && TC_idx(ctx) + q_idx < TC_size(ctx))
+__CPROVER_requires(__CPROVER_is_fresh(pc, SIZEOF_Chunk) && !Chunk_m_nullChunk(pc) && UT_FRESH_IN(Chunk_m_str(pc)) && Chunk_m_nlCount(pc) < (1UL << 40))
+#define CR_LOG(pc) UncText_m_logtext(Chunk_m_str(pc))       /* the UTF-8 copy of the text kept for log messages: UncText::clear() resets it to "\0" */
+__CPROVER_requires(V8_FRESH_IN(CR_LOG(pc)) && V8_cap(CR_LOG(pc)) >= 1)
+__CPROVER_assigns(TC_FRAME(ctx), Chunk_m_type(pc), Chunk_m_nlCount(pc), DI_size(UT_chars(Chunk_m_str(pc))), V8_size(CR_LOG(pc)), __CPROVER_object_whole(V8_data(CR_LOG(pc))))
+/* progress or restore */
+__CPROVER_ensures(__CPROVER_return_value ==> (TC_idx(ctx) > OLD_IDX + q_idx && TC_idx(ctx) <= TC_size(ctx)))
+__CPROVER_ensures(!__CPROVER_return_value ==> (TC_idx(ctx) == OLD_IDX && TC_row(ctx) == __CPROVER_old(TC_row(ctx)) && TC_col(ctx) == __CPROVER_old(TC_col(ctx))))
+__CPROVER_ensures(__CPROVER_return_value ==> (Chunk_m_type(pc) == CT_STRING_V || Chunk_m_type(pc) == CT_STRING_MULTI_V))
+;
